@@ -1,4 +1,5 @@
 import ThriftVerif.Lib.Reflect
+import ThriftVerif.Gen.StdLemmas
 /- helper lemmas about Lib/Reflect for Props/C15 -/
 namespace Reflect
 open Gen
@@ -473,5 +474,307 @@ theorem regAST_registers (uuid : Str) (root : Ast) (hc : Coh root.subs) (b : Ast
     · have : d = b := hc d hd b hb hk
       subst this
       rw [hv']
+
+/-! ### lookups against what names denote -/
+
+theorem Ast.refs_mem_subs (b r : Ast) (h : r ∈ b.refs) : r ∈ b.subs := by
+  cases b with
+  | mk f refs =>
+    simp only [Ast.refs] at h
+    simp only [Ast.subs, List.mem_cons]
+    exact Or.inr (mem_subsL_of_mem refs r h r (Ast.self_mem_subs r))
+
+theorem find?_map' {α β : Type} (g : α → β) (p : β → Bool) (l : List α) :
+    (l.map g).find? p = (l.find? (fun x => p (g x))).map g := by
+  induction l with
+  | nil => rfl
+  | cons x r ih =>
+    simp only [List.map_cons, List.find?_cons]
+    cases p (g x) <;> simp [ih]
+
+theorem globalOf_stamped (W : World) (uuid : Str) (huuid : uuid ≠ []) :
+    W.globalOf (addExtra uuid none) = mapGet W.regs uuid := by
+  simp [World.globalOf, addExtra, mapGet, huuid]
+
+theorem parseAlias_snd_nil_of_nil : (parseAlias []).2 = [] := by decide
+
+/-- the generic statement behind `lookup_finds`: a by-name lookup from a registered file returns the
+(stamped) descriptor of the definition the name denotes -/
+theorem lookup_generic {α δ : Type} (W : World) (uuid : Str) (root b : Ast) (name : Str)
+    (look : FileDesc → Str → Option δ) (defs : File → List α) (nameOf : α → Str) (mk : Str → α → δ)
+    (hlook : ∀ (f : File) (n : Str), look (registerUUID uuid (describe f)) n =
+      ((defs f).find? (fun d => nameOf d = n)).map (mk f.filename))
+    (huuid : uuid ≠ []) (hreg : mapGet W.regs uuid = some (regAST uuid root []))
+    (hc : Coh root.subs) (hwf : WFIncl root.subs) (hne : ∀ d ∈ root.subs, d.file.filename ≠ [])
+    (hb : b ∈ root.subs) (hnd : (b.file.includes.map baseName).Nodup) (hname : (parseAlias name).2 ≠ []) :
+    lookupIn W (mapGet W.regs uuid) b.file.filename name look =
+      (denote b name defs nameOf).map (fun pd => mk pd.1 pd.2) := by
+  have hn0 : name ≠ [] := by
+    intro e; subst e; exact hname parseAlias_snd_nil_of_nil
+  have hfd := regAST_registers uuid root hc b hb
+  simp only [lookupIn, lookupFD, hreg, Option.bind_some, hfd, getDescriptor, hn0, if_false, denote]
+  cases hpa : parseAlias name with
+  | mk pre nm =>
+    rw [hpa] at hname
+    simp only at hname ⊢
+    by_cases hp : pre = []
+    · subst hp
+      simp only [if_true, denoteFile, Option.bind_some, hlook, Option.map_map]
+      cases (defs b.file).find? (fun d => nameOf d = nm) <;> rfl
+    · simp only [hp, if_false, getIncludeFD, denoteFile]
+      have hinc : (registerUUID uuid (describe b.file)).includes = mapOfList baseName id b.file.includes := rfl
+      have hext : (registerUUID uuid (describe b.file)).extra = addExtra uuid none := rfl
+      rw [hinc, mapGet_mapOfList baseName id b.file.includes hnd pre, hwf b hb, find?_map', hext,
+        globalOf_stamped W uuid huuid, hreg]
+      cases hr : b.refs.find? (fun r => decide (baseName r.file.filename = pre)) with
+      | none => simp [lookupFD]
+      | some r =>
+        have hrm : r ∈ root.subs := subs_trans root b hb r (Ast.refs_mem_subs b r (List.mem_of_find?_eq_some hr))
+        have hrn := hne r hrm
+        simp only [Option.map_some, id, Option.getD_some, bne_iff_ne, ne_eq, hrn, not_false_eq_true, if_true, lookupFD,
+          Option.bind_some, regAST_registers uuid root hc r hrm, hname, if_false, hlook, Option.map_map]
+        cases (defs r.file).find? (fun d => nameOf d = nm) <;> rfl
+
+theorem look_struct (uuid : Str) (f : File) (n : Str) : lookStruct (registerUUID uuid (describe f)) n =
+    (f.structs.find? (fun d => d.name = n)).map (fun s => uuidStruct uuid (descStruct f.filename s)) := by
+  simp only [lookStruct, registerUUID, describe, find?_map', Option.map_map]; rfl
+theorem look_union (uuid : Str) (f : File) (n : Str) : lookUnion (registerUUID uuid (describe f)) n =
+    (f.unions.find? (fun d => d.name = n)).map (fun s => uuidStruct uuid (descStruct f.filename s)) := by
+  simp only [lookUnion, registerUUID, describe, find?_map', Option.map_map]; rfl
+theorem look_exception (uuid : Str) (f : File) (n : Str) : lookException (registerUUID uuid (describe f)) n =
+    (f.exceptions.find? (fun d => d.name = n)).map (fun s => uuidStruct uuid (descStruct f.filename s)) := by
+  simp only [lookException, registerUUID, describe, find?_map', Option.map_map]; rfl
+theorem look_enum (uuid : Str) (f : File) (n : Str) : lookEnum (registerUUID uuid (describe f)) n =
+    (f.enums.find? (fun d => d.name = n)).map (fun s => uuidEnum uuid (descEnum f.filename s)) := by
+  simp only [lookEnum, registerUUID, describe, find?_map', Option.map_map]; rfl
+theorem look_typedef (uuid : Str) (f : File) (n : Str) : lookTypedef (registerUUID uuid (describe f)) n =
+    (f.typedefs.find? (fun d => d.alias = n)).map (fun s => uuidTypedef uuid (descTypedef f.filename s)) := by
+  simp only [lookTypedef, registerUUID, describe, find?_map', Option.map_map]; rfl
+theorem look_const (uuid : Str) (f : File) (n : Str) : lookConst (registerUUID uuid (describe f)) n =
+    (f.consts.find? (fun d => d.name = n)).map (fun s => uuidConst uuid (descConst f.filename s)) := by
+  simp only [lookConst, registerUUID, describe, find?_map', Option.map_map]; rfl
+theorem look_service (uuid : Str) (f : File) (n : Str) : lookService (registerUUID uuid (describe f)) n =
+    (f.services.find? (fun d => d.name = n)).map (fun s => uuidService uuid (descService f.filename s)) := by
+  simp only [lookService, registerUUID, describe, find?_map', Option.map_map]; rfl
+
+/-! ### fields, methods, type descriptors of constants -/
+
+theorem field_by_name (p : Str) (s : StructLike) (n : Str) :
+    (descStruct p s).fieldByName n = (s.fields.find? (fun f => f.name = n)).map (descField p) := by
+  simp only [StructDesc.fieldByName, descStruct, find?_map']; rfl
+
+theorem field_by_id (p : Str) (s : StructLike) (i : Int) :
+    (descStruct p s).fieldById i = (s.fields.find? (fun f => f.id = i)).map (descField p) := by
+  simp only [StructDesc.fieldById, descStruct, find?_map']; rfl
+
+theorem method_by_name (p : Str) (s : Service) (n : Str) :
+    (descService p s).methodByName n = (s.functions.find? (fun f => f.name = n)).map (descMethod p) := by
+  simp only [ServiceDesc.methodByName, descService, find?_map']; rfl
+
+/-- registerGlobalUUID does not stamp the type descriptor of a constant -/
+theorem const_type_not_stamped (uuid p : Str) (c : Const) : (uuidConst uuid (descConst p c)).ty.extra = none := by
+  cases h : c.ty with
+  | mk n k v => simp [uuidConst, descConst, h, descTy, TypeDesc.extra]
+
+theorem globalOf_none (W : World) : W.globalOf none = some W.dflt := by simp [World.globalOf]
+
+/-! ### Go-type registry -/
+
+theorem byGoType_zip {τ β : Type} [DecidableEq τ] : ∀ (ks : List τ) (vs : List β) (i : Nat) (hk : i < ks.length) (hv : i < vs.length),
+    ks.Nodup → byGoType (ks.zip vs) ks[i] = some vs[i] := by
+  intro ks
+  induction ks with
+  | nil => intro vs i hk; cases hk
+  | cons k r ih =>
+    intro vs i hk hv hn
+    cases vs with
+    | nil => cases hv
+    | cons v vr =>
+      have hn' := List.nodup_cons.mp hn
+      simp only [byGoType, List.zip_cons_cons, List.reverse_cons, List.find?_append] at *
+      cases i with
+      | zero =>
+        have : (r.zip vr).reverse.find? (fun x => decide (x.1 = k)) = none := by
+          rw [List.find?_eq_none]
+          intro x hx
+          have hx' := List.mem_reverse.mp hx
+          have := (List.of_mem_zip hx').1
+          simp only [decide_eq_true_eq]
+          intro e; rw [e] at this; exact hn'.1 this
+        simp [this]
+      | succ j =>
+        have hj : j < r.length := by simpa using hk
+        have hjv : j < vr.length := by simpa using hv
+        have := ih vr j hj hjv hn'.2
+        simp only [List.getElem_cons_succ]
+        cases hf : (r.zip vr).reverse.find? (fun x => decide (x.1 = r[j])) with
+        | none => rw [hf] at this; cases this
+        | some x => rw [hf] at this; simpa using this
+
+/-! ### annotations: from source-level pairs to the descriptor map -/
+
+theorem annoAppend_keys (as : List Anno) (k v : Str) :
+    (annoAppend as k v).map Anno.key = if k ∈ as.map Anno.key then as.map Anno.key else as.map Anno.key ++ [k] := by
+  induction as with
+  | nil => simp [annoAppend]
+  | cons a r ih =>
+    by_cases h : a.key = k
+    · simp [annoAppend, h]
+    · have h' : ¬ k = a.key := fun e => h e.symm
+      simp only [annoAppend, h, if_false, List.map_cons, ih, List.mem_cons, h', false_or]
+      split <;> simp
+
+theorem annoAppend_nodup (as : List Anno) (k v : Str) (h : AnnosOK as) : AnnosOK (annoAppend as k v) := by
+  unfold AnnosOK at *
+  rw [annoAppend_keys]
+  split
+  · exact h
+  · rename_i hk
+    rw [List.nodup_append]
+    refine ⟨h, by simp, ?_⟩
+    intro a ha b hb
+    simp only [List.mem_singleton] at hb
+    subst hb
+    intro e; subst e; exact hk ha
+
+theorem annosOfPairs_ok (ps : List (Str × Str)) : AnnosOK (annosOfPairs ps) := by
+  unfold annosOfPairs
+  suffices ∀ as, AnnosOK as → AnnosOK (ps.foldl (fun as p => annoAppend as p.1 p.2) as) from this [] (by simp [AnnosOK])
+  induction ps with
+  | nil => intro as h; exact h
+  | cons p r ih => intro as h; exact ih _ (annoAppend_nodup as p.1 p.2 h)
+
+/-- what the IDL states for key `k`: all its values, in source order -/
+def valuesOf (ps : List (Str × Str)) (k : Str) : List Str := (ps.filter (fun p => p.1 = k)).map (·.2)
+
+def extend (o : Option (List Str)) (vs : List Str) : Option (List Str) :=
+  if vs = [] then o else some (o.getD [] ++ vs)
+
+theorem annoFacts_append (as : List Anno) (k v k2 : Str) :
+    annoFacts (annoAppend as k v) k2 = if k = k2 then some ((annoFacts as k2).getD [] ++ [v]) else annoFacts as k2 := by
+  induction as with
+  | nil =>
+    by_cases h : k = k2
+    · simp [annoAppend, annoFacts, h]
+    · simp [annoAppend, annoFacts, h]
+  | cons a r ih =>
+    by_cases ha : a.key = k
+    · by_cases h : k = k2
+      · subst h; simp [annoAppend, annoFacts, ha]
+      · have : ¬ a.key = k2 := fun e => h (ha.symm.trans e)
+        simp [annoAppend, annoFacts, ha, h]
+    · simp only [annoAppend, ha, if_false]
+      by_cases h2 : a.key = k2
+      · have : ¬ k = k2 := fun e => ha (h2.trans e.symm)
+        simp [annoFacts, h2, this]
+      · have ih' := ih
+        simp only [annoFacts] at ih' ⊢
+        simp only [List.find?_cons, h2, decide_false]
+        exact ih'
+
+theorem annoFacts_fold (ps : List (Str × Str)) (k : Str) : ∀ as : List Anno,
+    annoFacts (ps.foldl (fun as p => annoAppend as p.1 p.2) as) k = extend (annoFacts as k) (valuesOf ps k) := by
+  induction ps with
+  | nil => intro as; simp [valuesOf, extend]
+  | cons p r ih =>
+    intro as
+    rw [List.foldl_cons, ih, annoFacts_append]
+    by_cases h : p.1 = k
+    · simp only [h, if_true, valuesOf, List.filter_cons, decide_true, List.map_cons]
+      simp only [extend]
+      by_cases hr : List.map (fun x => x.2) (List.filter (fun p => decide (p.1 = k)) r) = []
+      · simp [hr]
+      · simp [hr]
+    · simp only [h, if_false, valuesOf, List.filter_cons, decide_false]
+      rfl
+
+/-! ### a Bool checker for `Gen.Gen.Std.WT` (the hypothesis of the round trip is evaluated at run time) -/
+
+theorem isNilB_eq (v : GoVal) (h : isNilB v = true) : v = .nil := by cases v <;> simp [isNilB] at h ⊢
+
+theorem keysOkB_sound (k : Ty) : ∀ (l : List GoVal), keysOkB k l = true → Gen.Std.KeysOK k l
+  | [], _ => by simp [Gen.Std.KeysOK]
+  | a :: r, h => by
+    simp only [keysOkB, Bool.and_eq_true, Bool.not_eq_true', List.all_eq_true] at h
+    refine ⟨?_, ?_, keysOkB_sound k r h.2⟩
+    · intro e; subst e; simp [isNilB] at h
+    · intro p hp; exact h.1.2 p hp
+
+theorem inRange_iff (lo hi x : Int) : inRange lo hi x = true ↔ lo ≤ x ∧ x < hi := by simp [inRange]
+
+mutual
+theorem wtB_sound (S : List StructDef) (v : GoVal) : ∀ (ty : Ty), wtB S ty v = true → Gen.Std.WT S ty v := by
+  intro ty h
+  cases v with
+  | nil => cases ty <;> simp [wtB, Gen.Std.WT] at h ⊢
+  | bool b => cases ty <;> simp [wtB, Gen.Std.WT] at h ⊢
+  | int x => cases ty <;> simp [wtB, Gen.Std.WT, inRange_iff] at h ⊢ <;> exact h
+  | dbl b => cases ty <;> simp [wtB, Gen.Std.WT] at h ⊢ <;> exact h
+  | bytes bs => cases ty <;> simp [wtB, Gen.Std.WT, Gen.Std.fitsLen] at h ⊢ <;> exact h
+  | list xs =>
+    cases ty with
+    | list e =>
+      simp only [wtB, Bool.and_eq_true, decide_eq_true_eq] at h
+      simp only [Gen.Std.WT]
+      exact ⟨h.1, wtListB_sound S xs e h.2⟩
+    | set e =>
+      simp only [wtB, Bool.and_eq_true, decide_eq_true_eq] at h
+      simp only [Gen.Std.WT]
+      exact ⟨h.1, wtListB_sound S xs e h.2⟩
+    | _ => simp [wtB] at h
+  | map kvs =>
+    cases ty with
+    | map k w =>
+      simp only [wtB, Bool.and_eq_true, Bool.or_eq_true, decide_eq_true_eq] at h
+      simp only [Gen.Std.WT]
+      exact ⟨h.1.1.1, wtPairsB_sound S kvs k w h.1.1.2, keysOkB_sound _ _ h.1.2, h.2⟩
+    | _ => simp [wtB] at h
+  | strct fs =>
+    cases ty with
+    | struct i =>
+      simp only [wtB] at h
+      simp only [Gen.Std.WT]
+      cases hs : S[i]? with
+      | none => rw [hs] at h; cases h
+      | some sd => rw [hs] at h; exact ⟨sd, rfl, wtFieldsB_sound S fs sd.fields h⟩
+    | _ => simp [wtB] at h
+theorem wtListB_sound (S : List StructDef) (xs : List GoVal) : ∀ (e : Ty), wtListB S e xs = true → Gen.Std.WTList S e xs := by
+  intro e h
+  cases xs with
+  | nil => simp [Gen.Std.WTList]
+  | cons x r =>
+    simp only [wtListB, Bool.and_eq_true] at h
+    exact ⟨wtB_sound S x e h.1, wtListB_sound S r e h.2⟩
+theorem wtPairsB_sound (S : List StructDef) (kvs : List (GoVal × GoVal)) : ∀ (k v : Ty), wtPairsB S k v kvs = true →
+    Gen.Std.WTPairs S k v kvs := by
+  intro k v h
+  cases kvs with
+  | nil => simp [Gen.Std.WTPairs]
+  | cons x r =>
+    obtain ⟨a, b⟩ := x
+    simp only [wtPairsB, Bool.and_eq_true] at h
+    exact ⟨wtB_sound S a k h.1.1, wtB_sound S b v h.1.2, wtPairsB_sound S r k v h.2⟩
+theorem wtFieldsB_sound (S : List StructDef) (vs : List GoVal) : ∀ (defs : List FieldDef), wtFieldsB S defs vs = true →
+    Gen.Std.WTFields S defs vs := by
+  intro defs h
+  cases vs with
+  | nil => cases defs <;> simp [wtFieldsB, Gen.Std.WTFields] at h ⊢
+  | cons v r =>
+    cases defs with
+    | nil => simp [wtFieldsB] at h
+    | cons f fs =>
+      simp only [wtFieldsB, Bool.and_eq_true, inRange_iff] at h
+      refine ⟨?_, ?_, h.1.2, wtFieldsB_sound S r fs h.2⟩
+      · intro ho
+        have h1 := h.1.1
+        simp only [ho, if_true, Bool.or_eq_true, Bool.and_eq_true, Bool.not_eq_true'] at h1
+        rcases h1 with h1 | h1
+        · exact Or.inl ⟨isNilB_eq v h1.1, h1.2⟩
+        · exact Or.inr (wtB_sound S v f.ty h1)
+      · intro ho
+        have h1 := h.1.1
+        simp only [ho, if_false] at h1
+        exact wtB_sound S v f.ty h1
+end
 
 end Reflect
